@@ -3,6 +3,7 @@
 // caller (the harness destroys and frees it); reset(p) takes ownership of p.
 // After a move the source is only required to hold null or the destination's old object.
 #include <vector>
+#include <cstring>
 #include <frg/unique.hpp>
 #include <frg/allocation.hpp>
 #include "../engine/verif.hpp"
@@ -130,4 +131,34 @@ void run_reentrant(Ctx &c) {
 }
 }
 
-void verif_case(Ctx &c) { unsigned k = c.t.pick(4); if(k == 0) run_mem(c); else if(k == 3) run_reentrant(c); else run_ptr(c); }
+namespace {
+// unique_ptr<Base> that owns an object of a larger derived class (adopted through unique_ptr(allocator, pointer) / reset(pointer)):
+// the block goes back with the size it was allocated with (or through the unsized free()), never with sizeof(Base)
+struct PBase : Tracked { PBase(int v) : Tracked(v) {} virtual ~PBase() {} };
+struct PDerived : PBase { char payload[136]; PDerived(int v) : PBase(v) { memset(payload, 0x5A, sizeof payload); } };
+void run_polymorphic(Ctx &c) {
+	auto &t = c.t;
+	using UPB = frg::unique_ptr<PBase, track_alloc>;
+	c.op("unique_ptr<Base> owning Derived objects");
+	c.tag("unique_ptr-polymorphic");
+	track_alloc a;
+	UPB *p = c.make<UPB>(track_alloc{}), *q = c.make<UPB>(track_alloc{});
+	int nextv = 1; bool released = false;
+	unsigned nops = 2 + t.pick(8);
+	auto fresh = [&]() -> PBase * { int v = nextv++; if(t.flip()) return new (a.allocate(sizeof(PDerived))) PDerived(v); return new (a.allocate(sizeof(PBase))) PBase(v); };
+	for(unsigned i = 0; i < nops; i++) {
+		switch(t.pick(5)) {
+		case 0: case 1: { PBase *n = fresh(); c.op("p.reset(new %s)", dynamic_cast<PDerived *>(n) ? "Derived" : "Base"); if(p->get()) released = true; p->reset(n); break; }
+		case 2: { PBase *n = fresh(); c.op("p = unique_ptr(alloc, new %s)", dynamic_cast<PDerived *>(n) ? "Derived" : "Base"); if(p->get()) released = true; *p = UPB(track_alloc{}, n); break; }
+		case 3: c.op("q = move(p)"); if(q->get()) released = true; *q = std::move(*p); break;
+		default: c.op("p.reset(nullptr)"); if(p->get()) released = true; p->reset(nullptr); break;
+		}
+		VTRACK_POLL(c);
+	}
+	c.destroy(p); c.destroy(q);
+	VTRACK_END(c);
+	c.nontrivial = released;
+}
+}
+
+void verif_case(Ctx &c) { unsigned k = c.t.pick(5); if(k == 4) { run_polymorphic(c); return; } if(k == 0) run_mem(c); else if(k == 3) run_reentrant(c); else run_ptr(c); }
